@@ -100,3 +100,80 @@ func decorate(s stackage.Stack) stackage.Stack {
 	s.SetLessFunc(func(i, j int) bool { return i < j })
 	return s
 }
+
+// fillModes is the number of construction histories fill knows.
+const fillModes = 8
+
+// fill gives s the content vals through one of several operation histories that all end in the same
+// logical content (start from non-initial states: a property about a tree must not depend on how the
+// tree was assembled). The stack must be empty, LIFO, without capacity pressure and not no-nesting.
+func fill(s stackage.Stack, vals []any, mode int) {
+	hasNil := false
+	for _, v := range vals {
+		if v == nil {
+			hasNil = true
+		}
+	}
+	if cp := s.Cap(); cp > 0 && cp < len(vals)+2 {
+		mode = 0
+	}
+	switch mode % fillModes {
+	case 1: // one Push per element
+		for _, v := range vals {
+			s.Push(v)
+		}
+	case 2: // Insert at the front, last element first (Insert refuses nil values)
+		if hasNil {
+			s.Push(vals...)
+			return
+		}
+		for i := len(vals) - 1; i >= 0; i-- {
+			s.Insert(vals[i], 0)
+		}
+	case 3: // junk in front, removed afterwards
+		s.Push("junk-a", "junk-b")
+		s.Push(vals...)
+		s.Remove(0)
+		s.Remove(0)
+	case 4: // junk behind, popped afterwards
+		s.Push(vals...)
+		s.Push("junk-z", "junk-y")
+		s.Pop()
+		s.Pop()
+	case 5: // placeholders replaced one by one (Replace refuses nil values)
+		if hasNil {
+			s.Push(vals...)
+			return
+		}
+		for range vals {
+			s.Push("placeholder")
+		}
+		for i, v := range vals {
+			s.Replace(v, i)
+		}
+	case 6: // pushed in reverse, then reversed
+		for i := len(vals) - 1; i >= 0; i-- {
+			s.Push(vals[i])
+		}
+		s.Reverse()
+	case 7: // filled, reset, filled again
+		s.Push(vals...)
+		s.Push("extra")
+		s.Reset()
+		s.Push(vals...)
+	default:
+		s.Push(vals...)
+	}
+}
+
+// fillMode derives a construction history from a description deterministically.
+func fillMode(desc string) int {
+	h := 0
+	for _, r := range desc {
+		h = h*31 + int(r)
+	}
+	if h < 0 {
+		h = -h
+	}
+	return h % fillModes
+}
